@@ -168,6 +168,17 @@ def build_variants(rng, isa, ktext, n_noise_variants):
                 m = rng.randrange(a + 1, b)
                 spec2 = "%d:%d,%d-%d,%d" % (m, b, a, m - 1, a)
                 out.append(("lines-unordered", "\n".join(lines) + "\n", ["--lines", spec2], renum))
+                # an entry NESTED inside another one (a single line / a sub-range strictly inside a-b), in either order
+                m1 = rng.randrange(a + 1, b)
+                m2 = rng.randrange(m1, b)
+                inner = "%d" % m1 if rng.random() < 0.5 else "%d%s%d" % (m1, rng.choice("-:"), m2)
+                outer = "%d%s%d" % (a, rng.choice("-:"), b)
+                spec3 = rng.choice(["%s,%s" % (outer, inner), "%s,%s" % (inner, outer), "%s,%s,%s" % (inner, outer, inner)])
+                out.append(("lines-nested", "\n".join(lines) + "\n", ["--lines", spec3], renum))
+                # overlapping / duplicated / adjacent entries
+                spec4 = rng.choice(["%d-%d,%d:%d" % (a, m2, m1, b), "%d-%d,%d-%d" % (a, b, a, b), "%d,%d,%d-%d" % (m1, m1, a, b),
+                                    "%d-%d,%d-%d" % (a, m1, m1 + 1, b) if m1 < b else "%d-%d" % (a, b), "%d:%d,%d-%d" % (m1, b, a, m2)])
+                out.append(("lines-overlap", "\n".join(lines) + "\n", ["--lines", spec4], renum))
     for v in range(n_noise_variants):
         sm = G.marker(rng, isa, "start", rng.choice(styles))
         em = G.marker(rng, isa, "end", rng.choice(styles))
@@ -219,3 +230,132 @@ def check_kernel(ctx, rng, path, arch, n_noise, workdir):
                                      "extra_args": extra, "kernel_text": "\n".join(ktext) + "\n",
                                      "renum": {str(k): v for k, v in dict(next(r for n_, t_, e_, r in variants if n_ == name)).items()}}))
     return {"isa": isa, "lines": len(ktext), "variants": len(variants), "unstable": False}, bad
+
+
+# ------------------------------------------------------------------------------------------- --lines, focused family
+def rows_of(report):
+    """line numbers of the rows of the Combined Analysis Report table (= the lines the analysis received), in order"""
+    i = report.find("Combined Analysis Report")
+    if i < 0:
+        return None
+    out = []
+    for line in report[i:].split("\n"):
+        if line.startswith("Loop-Carried Dependencies Analysis Report"):
+            break
+        m = ROW.match(line)
+        if m:
+            out.append(int(m.group(2)))
+    return out
+
+
+def named_lines(spec):
+    """what the property says a --lines argument names (single numbers, inclusive a-b / a:b), independent of the code"""
+    out = set()
+    for item in spec.split(","):
+        item = item.replace(":", "-")
+        if "-" in item:
+            x, y = item.split("-")
+            out |= set(range(int(x), int(y) + 1))
+        else:
+            out.add(int(item))
+    return out
+
+
+def lines_family(rng, a, b):
+    """--lines arguments over the lines a..b (b - a >= 5): single numbers, a-b, a:b, duplicates, overlapping, NESTED,
+    unordered, adjacent entries, and proper subsets with a gap."""
+    m1 = rng.randrange(a + 1, b - 2)
+    m2 = rng.randrange(m1 + 1, b)
+    fam = [
+        ("range-dash", "%d-%d" % (a, b)), ("range-colon", "%d:%d" % (a, b)),
+        ("singles", ",".join(str(k) for k in range(a, b + 1))),
+        ("duplicate-range", "%d-%d,%d:%d" % (a, b, a, b)), ("duplicate-single", "%d,%d,%d-%d" % (m1, m1, a, b)),
+        ("duplicate-first", "%d-%d,%d" % (a, b, a)), ("duplicate-last", "%d-%d,%d" % (a, b, b)),
+        ("overlap", "%d-%d,%d-%d" % (a, m2, m1, b)), ("overlap-reversed", "%d:%d,%d-%d" % (m1, b, a, m2)),
+        ("nested-single", "%d-%d,%d" % (a, b, m1)), ("nested-single-first", "%d,%d-%d" % (m1, a, b)),
+        ("nested-range", "%d-%d,%d-%d" % (a, b, m1, m2)), ("nested-range-first", "%d:%d,%d:%d" % (m1, m2, a, b)),
+        ("nested-twice", "%d-%d,%d,%d-%d" % (a, b, m1, m1, m2)), ("nested-same-start", "%d-%d,%d-%d" % (a, b, a, m1)),
+        ("nested-same-end", "%d-%d,%d-%d" % (a, b, m2, b)),
+        ("unordered", "%d-%d,%d-%d" % (m2, b, a, m2 - 1)), ("adjacent", "%d-%d,%d-%d" % (a, m1, m1 + 1, b)),
+        ("adjacent-single", "%d,%d-%d" % (a, a + 1, b)),
+        ("gap", "%d-%d,%d-%d" % (a, m1 - 1 if m1 - 1 >= a else a, m2, b)), ("gap-nested", "%d-%d,%d,%d-%d" % (a, m1, a, m2 + 1 if m2 + 1 <= b else b, b)),
+    ]
+    return fam
+
+
+def check_lines_specs(ctx, rng, path, arch, workdir, specs=None, n_random=0):
+    """One (kernel, model) pair: the kernel's lines inside an UNMARKED file (random prologue / epilogue with decoys);
+    for every --lines argument of the family: the rows of the report must be exactly the named lines (in file order,
+    once each) and all numbers must equal those of a file that contains only these lines.
+    -> (stats, [(tag, spec, what, replay)])"""
+    ek = extract_kernel(path)
+    if ek is None:
+        return None, []
+    isa, ktext = ek
+    pro = [l for l in G.segment(rng, isa, rng.randrange(1, 5))]
+    epi = [l for l in G.segment(rng, isa, rng.randrange(1, 4))]
+    lines = pro + ktext + epi
+    a, b = len(pro) + 1, len(pro) + len(ktext)
+    if b - a < 5:
+        return None, []
+    text = "\n".join(lines) + "\n"
+    fam = list(specs) if specs is not None else lines_family(rng, a, b)
+    for k in range(n_random):
+        items = []
+        for _ in range(rng.randrange(2, 5)):
+            x = rng.randrange(a, b + 1)
+            y = rng.randrange(x, b + 1)
+            items.append(str(x) if rng.random() < 0.4 else "%d%s%d" % (x, rng.choice("-:"), y))
+        fam.append(("random-%d" % k, ",".join(items)))
+    f = os.path.join(workdir, "lines.s")
+    with open(f, "w") as fh:
+        fh.write(text)
+    refs = {}
+    bad = []
+    runs = 0
+    for tag, spec in fam:
+        want = sorted(n for n in named_lines(spec) if 1 <= n <= len(lines) and lines[n - 1].strip() != "")
+        key = tuple(want)
+        if key not in refs:
+            fr = os.path.join(workdir, "lines_ref.s")
+            with open(fr, "w") as fh:
+                fh.write("\n".join(lines[n - 1] for n in want) + "\n")
+            run_osaca(["--arch", arch, fr])
+            rep, err = run_osaca(["--arch", arch, fr])
+            runs += 1
+            refs[key] = canon(rep, {i + 1: i for i in range(len(want))}) if rep is not None else "EXCEPTION " + err
+        rep, err = run_osaca(["--arch", arch, "--lines", spec, f])
+        runs += 1
+        replay = {"type": "e2e-lines", "kernel_file": os.path.relpath(path, vlib.REPO), "arch": arch, "file_text": text,
+                  "spec": spec, "expect_rows": want}
+        if rep is None:
+            got_rows, got = None, "EXCEPTION " + err
+        else:
+            got_rows, got = rows_of(rep), canon(rep, {n: i for i, n in enumerate(want)})
+        if refs[key].startswith("EXCEPTION") and got.startswith("EXCEPTION"):
+            continue                              # e.g. no instruction among the named lines: both inputs are rejected alike
+        if got_rows != want:
+            bad.append((tag, spec, "--lines %s on a %d-line file: the analysed kernel must be lines %s, the report shows %s" % (
+                spec, len(lines), want, got_rows if got_rows is not None else got), replay))
+        elif got != refs[key]:
+            x, y = refs[key].split("\n"), got.split("\n")
+            diff = next(("only-these-lines file: %r | --lines: %r" % (p, q) for p, q in zip(x, y) if p != q), "length %d vs %d" % (len(x), len(y)))
+            bad.append((tag, spec, "--lines %s: numbers differ from the file containing only the named lines: %s" % (spec, diff), replay))
+    return {"isa": isa, "specs": len(fam), "runs": runs, "a": a, "b": b}, bad
+
+
+def replay_lines(r, workdir):
+    """-> (ok, description)"""
+    f, fr = os.path.join(workdir, "lines.s"), os.path.join(workdir, "lines_ref.s")
+    lines = r["file_text"].rstrip("\n").split("\n")
+    want = r["expect_rows"]
+    open(f, "w").write(r["file_text"])
+    open(fr, "w").write("\n".join(lines[n - 1] for n in want) + "\n")
+    run_osaca(["--arch", r["arch"], fr])
+    ref, e0 = run_osaca(["--arch", r["arch"], fr])
+    rep, e1 = run_osaca(["--arch", r["arch"], "--lines", r["spec"], f])
+    if rep is None:
+        return ref is None, "exception %s (reference: %s)" % (e1, e0)
+    rows = rows_of(rep)
+    same = ref is not None and canon(ref, {i + 1: i for i in range(len(want))}) == canon(rep, {n: i for i, n in enumerate(want)})
+    return rows == want and same, "rows %s, demanded %s, numbers %s" % (rows, want, "equal" if same else "DIFFERENT")
